@@ -582,7 +582,8 @@ class Report:
             print("VIOLATION property=%s replay=%s" % (self.prop, replay))
             return 1
         if self.broken:
-            raise Broken("; ".join("rule %s: %s" % b for b in self.broken))
+            print("ANALYSIS-BROKEN property=%s: %s" % (self.prop, "; ".join("rule %s: %s" % b for b in self.broken)))
+            return 2
         print("OK property=%s tier=%s obligations=%d discharged=%d known=%d wall=%.1fs" %
               (self.prop, self.tier, self.obligations, self.discharged + 0, len(known_hits), wall))
         return 0
@@ -600,6 +601,29 @@ def always_leaves(st):
     if k == "if":
         return st.get("else") is not None and always_leaves(st["then"]) and always_leaves(st["else"])
     return False
+
+
+def split_cond_returns(st):
+    """copy of a statement tree in which `return c ? a : b;` is written `if (c) return a; else return b;`"""
+    if isinstance(st, list):
+        return [split_cond_returns(x) for x in st]
+    if not isinstance(st, dict):
+        return st
+    if st.get("k") == "return" and isinstance(st.get("e"), dict):
+        inner = st["e"]
+        while isinstance(inner, dict) and inner.get("k") == "ctor" and inner.get("cm") and len(inner.get("a", [])) == 1:
+            inner = inner["a"][0]
+        while isinstance(inner, dict) and inner.get("k") in ("paren",) and isinstance(inner.get("e"), dict):
+            inner = inner["e"]
+        if isinstance(inner, dict) and inner.get("k") == "cond":
+            mk = lambda e: split_cond_returns({"k": "return", "e": e, "l": st.get("l")})
+            return {"k": "if", "c": inner["c"], "then": mk(inner["a"]), "else": mk(inner["b"]), "l": st.get("l")}
+        return st
+    out = dict(st)
+    for key in ("s", "then", "else", "body", "sub", "handlers", "try"):
+        if key in out and isinstance(out[key], (dict, list)):
+            out[key] = split_cond_returns(out[key])
+    return out
 
 
 def null_case_region(f, is_producer, first_of_pair=False, producer_fn="the lookup"):
@@ -702,7 +726,7 @@ def null_case_region(f, is_producer, first_of_pair=False, producer_fn="the looku
         for key in ("body", "s", "sub", "try", "handlers"):
             if key in st:
                 rec(st[key], None)
-    rec(f["body"], None)
+    rec(split_cond_returns(f["body"]), None)
     if len(hits) != 1:
         raise Broken("%s no longer tests the result of %s against nullptr exactly once (found %d tests; unmodelled shape)" % (f["q"], producer_fn, len(hits)))
     return hits[0]
